@@ -9,9 +9,12 @@
 //! Oracle (mutation sweep): every mutated proof / public input / verifying key / transcript hash
 //! must make verification return an error (never accept, never panic).
 
+mod absorb;
+
+use absorb::{blake_answer, hex, point_coords, poseidon_answer, take_hlog, HEv, RecBlake, RecPoseidon};
 use blake2b_simd::State as Blake2bState;
-use ff::{Field, PrimeField};
-use group::{Curve, Group, GroupEncoding};
+use ff::{Field, FromUniformBytes, PrimeField};
+use group::{prime::PrimeCurveAffine, Curve, Group, GroupEncoding};
 use midnight_circuits::hash::poseidon::PoseidonState;
 use midnight_curves::{Bls12, Fq as F, G1Projective};
 use midnight_proofs::{
@@ -20,7 +23,8 @@ use midnight_proofs::{
         commitment::Guard,
         kzg::{params::ParamsKZG, KZGCommitmentScheme},
     },
-    transcript::{Hashable, Sampleable, Transcript, TranscriptHash},
+    transcript::{CircuitTranscript, Hashable, Sampleable, Transcript, TranscriptHash},
+    utils::SerdeFormat,
 };
 use mzkh::{
     family::{sample_params, FamCircuit, FamParams, GateKind, LookupKind},
@@ -343,6 +347,411 @@ fn scalar_cases(ctx: &mut Ctx) {
     }
 }
 
+/// Statement part of an `absorbed` request: `nc= vk= coms= cols=`.
+fn stmt_string(m: &Member, vk: &VerifyingKey<F, Scheme>, p: &Proven) -> String {
+    let nc = m.fp.n_committed;
+    let coms = p
+        .coms
+        .iter()
+        .map(|cs| if cs.is_empty() { "none".to_string() } else { cs.iter().map(absorb::point_compressed_hex).collect::<Vec<_>>().join(",") })
+        .collect::<Vec<_>>()
+        .join(";");
+    let cols = p
+        .insts
+        .iter()
+        .map(|cols| {
+            let plain = &cols[nc..];
+            if plain.is_empty() {
+                "none".to_string()
+            } else {
+                plain.iter().map(|c| if c.is_empty() { "-".to_string() } else { c.iter().map(mzkh::fe_hex).collect::<Vec<_>>().join(",") }).collect::<Vec<_>>().join("|")
+            }
+        })
+        .collect::<Vec<_>>()
+        .join(";");
+    format!("nc={} vk={} coms={} cols={}", nc, mzkh::fe_hex(&vk.transcript_repr()), coms, cols)
+}
+
+/// The real verifier on top of a recording hash state: everything it absorbs and squeezes.
+fn hash_log<HR: TranscriptHash>(m: &Member, p: &Proven) -> (Result<bool, String>, Vec<HEv>)
+where
+    F: Hashable<HR> + Sampleable<HR>,
+    G1Projective: Hashable<HR>,
+{
+    let nc = m.fp.n_committed;
+    let com_refs: Vec<&[G1Projective]> = p.coms.iter().map(|c| &c[..]).collect();
+    let plain: Vec<Vec<&[F]>> = p.insts.iter().map(|cols| cols[nc..].iter().map(|c| &c[..]).collect()).collect();
+    let plain2: Vec<&[&[F]]> = plain.iter().map(|c| &c[..]).collect();
+    take_hlog();
+    let r = mzkh::catch(|| {
+        let mut vt = CircuitTranscript::<HR>::init_from_bytes(&p.proof);
+        let g = match prepare::<F, Scheme, _>(m.pk.get_vk(), &com_refs, &plain2, &mut vt) {
+            Ok(g) => g,
+            Err(_) => return false,
+        };
+        if vt.assert_empty().is_err() {
+            return false;
+        }
+        g.verify(&m.params.verifier_params()).is_ok()
+    });
+    (r, take_hlog())
+}
+
+/// Correspondence `absorbed`: the framed stream the transcript hash absorbed for a real proof must be
+/// what the model derives from the statement and the PARSED proof elements.
+fn absorbed_case(ctx: &mut Ctx, m: &Member, p: &Proven, poseidon: bool) {
+    let (r, log) = if poseidon { hash_log::<RecPoseidon>(m, p) } else { hash_log::<RecBlake>(m, p) };
+    if r != Ok(true) {
+        ctx.oracle_fail(
+            "honest-rejected:recording-hash",
+            "honest proof rejected when the transcript hash is wrapped by a logging state (must be transparent)",
+            json!({"params": format!("{:?}", m.fp), "poseidon": poseidon, "result": format!("{r:?}")}),
+        );
+        return;
+    }
+    let ans = if poseidon { poseidon_answer(&log) } else { blake_answer(&log) };
+    let n_abs = log.iter().filter(|e| matches!(e, HEv::AbsorbB(_) | HEv::AbsorbP(_))).count();
+    ctx.count_n(if poseidon { "absorbed-inputs:poseidon" } else { "absorbed-inputs:blake" }, n_abs as u64);
+    let shape = shape::shape_string(&m.pk, m.k);
+    let op = format!("absorbed {} {} {} proof={}", if poseidon { "poseidon" } else { "blake" }, shape, stmt_string(m, m.pk.get_vk(), p), hex(&p.proof));
+    ctx.case(if poseidon { "absorbed-poseidon" } else { "absorbed-blake" }, true, &op, &ans);
+}
+
+/// Parse-level verdict of the real verifier: `ok <#elements>`, `reject <index of the failing element>`,
+/// `trailing <#bytes>`.
+fn parse_level<H: TranscriptHash>(m: &Member, p: &Proven, proof: &[u8]) -> String
+where
+    F: Hashable<H> + Sampleable<H>,
+    G1Projective: Hashable<H>,
+{
+    let nc = m.fp.n_committed;
+    let com_refs: Vec<&[G1Projective]> = p.coms.iter().map(|c| &c[..]).collect();
+    let plain: Vec<Vec<&[F]>> = p.insts.iter().map(|cols| cols[nc..].iter().map(|c| &c[..]).collect()).collect();
+    let plain2: Vec<&[&[F]]> = plain.iter().map(|c| &c[..]).collect();
+    take_log();
+    let r = mzkh::catch(|| {
+        let mut vt = RecordingTranscript::<H>::init_from_bytes(proof);
+        match prepare::<F, Scheme, _>(m.pk.get_vk(), &com_refs, &plain2, &mut vt) {
+            Ok(_) => {
+                if vt.assert_empty().is_ok() {
+                    0
+                } else {
+                    1
+                }
+            }
+            Err(_) => 2,
+        }
+    });
+    let ev = take_log();
+    let reads = ev.iter().filter(|e| e.kind == 'R').count();
+    let consumed: usize = ev.iter().filter(|e| e.kind == 'R').map(|e| e.bytes.len()).sum();
+    match r {
+        Ok(0) => format!("ok {reads}"),
+        Ok(1) => format!("trailing {}", proof.len() - consumed),
+        Ok(_) => format!("reject {reads}"),
+        Err(pn) => format!("panic {pn}"),
+    }
+}
+
+/// Correspondence `parse`: for sampled element-level mutants and the length edits, the model predicts
+/// whether (and at which element) the verifier fails at decoding level.
+fn parse_cases<H: TranscriptHash>(ctx: &mut Ctx, m: &Member, p: &Proven, n_elems: usize, seed: u64)
+where
+    F: Hashable<H> + Sampleable<H>,
+    G1Projective: Hashable<H>,
+{
+    let shape = shape::shape_string(&m.pk, m.k);
+    let lens = p
+        .insts
+        .iter()
+        .map(|cols| mzkh::join(&cols[m.fp.n_committed..].iter().map(|c| c.len()).collect::<Vec<_>>()))
+        .collect::<Vec<_>>()
+        .join("|");
+    let cfg = format!("np={} nc={} lens={}", p.insts.len(), m.fp.n_committed, lens);
+    let emit = |ctx: &mut Ctx, class: &str, proof: &[u8]| {
+        let ans = parse_level::<H>(m, p, proof);
+        ctx.case(&format!("parse:{class}"), true, &format!("parse {shape} {cfg} proof={}", hex(proof)), &ans);
+    };
+    emit(ctx, "honest", &p.proof);
+    let mut rng = ctx.rng(&format!("parse{seed}"));
+    let mut idxs: Vec<usize> = vec![0, p.layout.len() - 1];
+    for _ in 0..n_elems {
+        idxs.push(rng.gen_range(0..p.layout.len()));
+    }
+    for idx in idxs {
+        let (off, ty) = p.layout[idx];
+        let size = if ty == 'G' { 48 } else { 32 };
+        let mut variants: Vec<(&str, Vec<u8>)> = vec![];
+        if ty == 'G' {
+            variants.push(("point-other-valid", other_point(idx)));
+            variants.push(("point-invalid", vec![0xff; 48]));
+            let mut b = p.proof[off..off + size].to_vec();
+            b[0] &= 0x7f;
+            variants.push(("point-flag-cleared", b));
+            let mut b = p.proof[off..off + size].to_vec();
+            b[0] ^= 0x20; // the other square root: a valid point (-P)
+            variants.push(("point-negated", b));
+            let mut b = p.proof[off..off + size].to_vec();
+            b[47] ^= 1; // neighbouring abscissa: on the curve or not, (almost) never in the subgroup
+            variants.push(("point-x-flip", b));
+        } else {
+            let mut b = p.proof[off..off + size].to_vec();
+            b[0] ^= 1;
+            variants.push(("scalar-other", b));
+            variants.push(("scalar-ff", vec![0xff; 32]));
+            let v = num_bigint::BigUint::from_bytes_le(&p.proof[off..off + size]) + num_bigint::BigUint::parse_bytes(b"73eda753299d7d483339d80809a1d80553bda402fffe5bfeffffffff00000001", 16).unwrap();
+            let mut b = v.to_bytes_le();
+            if b.len() <= 32 {
+                b.resize(32, 0);
+                variants.push(("scalar-plus-modulus", b));
+            }
+        }
+        for (class, bytes) in variants {
+            let mut pr = p.proof.clone();
+            pr[off..off + size].copy_from_slice(&bytes);
+            emit(ctx, class, &pr);
+        }
+    }
+    let mut pr = p.proof.clone();
+    pr.push(0);
+    emit(ctx, "trailing-byte", &pr);
+    pr.extend_from_slice(&[7u8; 40]);
+    emit(ctx, "trailing-bytes", &pr);
+    emit(ctx, "truncated-byte", &p.proof[..p.proof.len() - 1]);
+    emit(ctx, "truncated-element", &p.proof[..p.proof.len() - 48]);
+    emit(ctx, "truncated-half", &p.proof[..p.proof.len() / 2]);
+    emit(ctx, "empty", &[]);
+}
+
+/// Correspondence `point` / `pointinput`: the two point readers of the transcript on boundary encodings,
+/// and `to_input` of points under both hashes.
+fn point_cases(ctx: &mut Ctx) {
+    let mut cands: Vec<(&str, Vec<u8>)> = vec![];
+    let enc = |p: &G1Projective| p.to_affine().to_bytes().as_ref().to_vec();
+    let g = G1Projective::generator();
+    let mut rng = ctx.rng("points");
+    let n_rand = if ctx.quick() { 12 } else { 60 };
+    let mut pts: Vec<G1Projective> = vec![g, g.double(), -g, G1Projective::identity()];
+    for _ in 0..n_rand {
+        let mut b = [0u8; 64];
+        rng.fill(&mut b[..]);
+        pts.push(g * F::from_uniform_bytes(&b));
+    }
+    for p in &pts {
+        let b = enc(p);
+        cands.push(("valid", b.clone()));
+        let mut c = b.clone();
+        c[0] ^= 0x20;
+        cands.push(("sign-flipped", c));
+        let mut c = b.clone();
+        c[0] &= 0x7f;
+        cands.push(("compression-flag-cleared", c));
+        let mut c = b.clone();
+        c[0] |= 0x40;
+        cands.push(("infinity-flag-set", c));
+        let mut c = b.clone();
+        c[47] ^= 1;
+        cands.push(("x-neighbour", c));
+    }
+    // infinity spellings
+    let mut inf = vec![0u8; 48];
+    inf[0] = 0xc0;
+    cands.push(("infinity", inf.clone()));
+    let mut c = inf.clone();
+    c[0] = 0xe0;
+    cands.push(("infinity-with-sign", c));
+    let mut c = inf.clone();
+    c[47] = 1;
+    cands.push(("infinity-with-x", c));
+    let mut c = inf.clone();
+    c[0] = 0xc1;
+    cands.push(("infinity-with-x-high", c));
+    cands.push(("all-ff", vec![0xff; 48]));
+    cands.push(("all-zero", vec![0; 48]));
+    // x = p, p - 1, p + 1 (non-canonical abscissa / boundary), x = 0..8 with both signs (small x: on the curve
+    // but outside the subgroup, or not on the curve; x = 0 is rejected by blst)
+    let pmod = num_bigint::BigUint::parse_bytes(b"1a0111ea397fe69a4b1ba7b6434bacd764774b84f38512bf6730d2a0f6b0f6241eabfffeb153ffffb9feffffffffaaab", 16).unwrap();
+    let one = num_bigint::BigUint::from(1u8);
+    let mut xs = vec![pmod.clone(), &pmod - &one, &pmod + &one, &pmod + num_bigint::BigUint::from(3u8)];
+    for i in 0u32..9 {
+        xs.push(num_bigint::BigUint::from(i));
+    }
+    for x in xs {
+        let mut b = x.to_bytes_be();
+        while b.len() < 48 {
+            b.insert(0, 0);
+        }
+        for flag in [0x80u8, 0xa0] {
+            let mut c = b.clone();
+            c[0] |= flag;
+            cands.push(("raw-x", c));
+        }
+    }
+    for _ in 0..n_rand {
+        let mut b = vec![0u8; 48];
+        rng.fill(&mut b[..]);
+        b[0] = (b[0] & 0x1f) | 0x80 | if rng.gen_bool(0.5) { 0x20 } else { 0 };
+        // keep x below p most of the time
+        b[0] &= 0x8f | 0x20;
+        cands.push(("random-x", b));
+    }
+    cands.push(("short", vec![0x80; 47]));
+    for (class, b) in cands {
+        let (a, c) = if b.len() == 48 { absorb::point_reads(&b) } else { ("none".to_string(), "none".to_string()) };
+        if b.len() == 48 {
+            ctx.case(&format!("point:{class}"), true, &format!("point {}", hex(&b)), &a);
+            ctx.case(&format!("point-poseidon:{class}"), true, &format!("point {}", hex(&b)), &c);
+        } else {
+            // fewer than 48 bytes: both readers fail on read_exact
+            let mut rd = &b[..];
+            let r1 = <G1Projective as Hashable<Blake2bState>>::read(&mut rd).is_err();
+            let mut rd = &b[..];
+            let r2 = <G1Projective as Hashable<PoseidonState<F>>>::read(&mut rd).is_err();
+            ctx.case(&format!("point:{class}"), true, &format!("point {}", hex(&b)), if r1 && r2 { "none" } else { "some" });
+        }
+    }
+    for p in &pts {
+        ctx.case("pointinput", true, &format!("pointinput {}", point_coords(p)), &absorb::point_inputs(p));
+    }
+    let mut rng = ctx.rng("scalar-inputs");
+    for _ in 0..20 {
+        let mut b = [0u8; 64];
+        rng.fill(&mut b[..]);
+        let v = F::from_uniform_bytes(&b);
+        if !absorb::scalar_input_consistent(&v) {
+            ctx.oracle_fail("scalar-to-input", "Hashable::to_input / to_bytes of a scalar is not its canonical 32-byte / one-element form", json!({"v": mzkh::fe_hex(&v)}));
+        }
+    }
+}
+
+fn uncompressed(p: &G1Projective) -> Vec<u8> {
+    let a = p.to_affine();
+    if bool::from(a.is_identity()) {
+        let mut v = vec![0u8; 96];
+        v[0] = 0x40;
+        v
+    } else {
+        let mut v = a.x().to_bytes_be().to_vec();
+        v.extend_from_slice(&a.y().to_bytes_be());
+        v
+    }
+}
+
+/// The buffer `VerifyingKey::from_parts` hashes, rebuilt from the public accessors in the order of the model;
+/// it is the implementation's answer only if its hash IS the key's `transcript_repr`.
+fn vk_input_case(ctx: &mut Ctx, class: &str, vk: &VerifyingKey<F, Scheme>) {
+    let k = vk.get_domain().k();
+    let dom = format!("{:?}", vk.get_domain().pinned());
+    let cs = format!("{:?}", vk.cs().pinned());
+    let fixed = vk.fixed_commitments();
+    let perm = vk.permutation().commitments();
+    let mut buf: Vec<u8> = vec![0x03, k as u8];
+    buf.extend_from_slice(&(fixed.len() as u32).to_le_bytes());
+    for c in fixed {
+        buf.extend_from_slice(&uncompressed(c));
+    }
+    buf.extend_from_slice(&(perm.len() as u32).to_le_bytes());
+    for c in perm {
+        buf.extend_from_slice(&uncompressed(c));
+    }
+    buf.extend_from_slice(dom.as_bytes());
+    buf.extend_from_slice(cs.as_bytes());
+    let h = blake2b_simd::Params::new().hash_length(64).personal(b"Halo2-Verify-Key").to_state().update(&buf).finalize();
+    let repr = F::from_uniform_bytes(h.as_array());
+    let ans = if repr == vk.transcript_repr() { hex(&buf) } else { "MISMATCH transcript_repr is not the hash of the modelled buffer".to_string() };
+    let pts = |v: &[G1Projective]| if v.is_empty() { "none".to_string() } else { v.iter().map(point_coords).collect::<Vec<_>>().join(",") };
+    ctx.case(
+        &format!("vkinput:{class}"),
+        true,
+        &format!("vkinput k={} fixed={} perm={} domain={} cs={}", k, pts(fixed), pts(perm), hex(dom.as_bytes()), hex(cs.as_bytes())),
+        &ans,
+    );
+}
+
+/// One component of a verifying key changed at a time (through `VerifyingKey::from_bytes` on edited bytes,
+/// or another constraint system — only parameters that certainly change the constraint system: gates, lookups,
+/// column counts): `transcript_repr` must change, and the honest proof must be rejected.
+fn vk_mutations(ctx: &mut Ctx, m: &Member, p: &Proven, other_cs: &[(&str, &FamParams)], all: bool) {
+    let vk = m.pk.get_vk();
+    vk_input_case(ctx, "honest", vk);
+    let bytes = vk.to_bytes(SerdeFormat::RawBytes);
+    let nf = vk.fixed_commitments().len();
+    let np = vk.permutation().commitments().len();
+    if bytes.len() != 6 + 96 * (nf + np) {
+        ctx.oracle_fail("vk-bytes-layout", "RawBytes verifying key is not 6 header bytes + 96 per commitment", json!({"len": bytes.len(), "nf": nf, "np": np}));
+        return;
+    }
+    let mut muts: Vec<(String, Vec<u8>, FamParams)> = vec![];
+    for dk in [1i32, -1, 2] {
+        let mut b = bytes.clone();
+        b[1] = (b[1] as i32 + dk) as u8;
+        muts.push((format!("k{dk:+}"), b, m.fp.clone()));
+    }
+    let other = uncompressed(&(G1Projective::generator() * F::from(77u64)));
+    let mut rng = ctx.rng("vkmut");
+    let mut slots: Vec<usize> = (0..nf + np).collect();
+    if !all && slots.len() > 6 {
+        let mut pick = vec![0, nf - 1, nf, nf + np - 1];
+        pick.push(rng.gen_range(0..nf));
+        pick.push(nf + rng.gen_range(0..np.max(1)).min(np.saturating_sub(1)));
+        pick.retain(|i| *i < nf + np);
+        pick.sort();
+        pick.dedup();
+        slots = pick;
+    }
+    for i in slots {
+        let mut b = bytes.clone();
+        b[6 + 96 * i..6 + 96 * (i + 1)].copy_from_slice(&other);
+        muts.push((if i < nf { format!("fixed[{i}]") } else { format!("perm[{}]", i - nf) }, b.clone(), m.fp.clone()));
+        if i + 1 < nf + np && (i + 1 < nf) == (i < nf) {
+            // swap two neighbouring commitments of the same kind
+            let mut b = bytes.clone();
+            let (x, y) = (bytes[6 + 96 * i..6 + 96 * (i + 1)].to_vec(), bytes[6 + 96 * (i + 1)..6 + 96 * (i + 2)].to_vec());
+            if x != y {
+                b[6 + 96 * i..6 + 96 * (i + 1)].copy_from_slice(&y);
+                b[6 + 96 * (i + 1)..6 + 96 * (i + 2)].copy_from_slice(&x);
+                muts.push((if i < nf { format!("fixed-swap[{i}]") } else { format!("perm-swap[{}]", i - nf) }, b, m.fp.clone()));
+            }
+        }
+    }
+    for (name, fp) in other_cs {
+        muts.push((format!("cs:{name}"), bytes.clone(), (*fp).clone()));
+    }
+    for (name, b, fp) in muts {
+        let class = name.split('[').next().unwrap().to_string();
+        let r = mzkh::catch(|| VerifyingKey::<F, Scheme>::from_bytes::<FamCircuit>(&b, SerdeFormat::RawBytes, fp.clone()));
+        let vk2 = match r {
+            Ok(Ok(v)) => v,
+            Ok(Err(_)) => {
+                ctx.count(&format!("vkmut-unreadable:{class}"));
+                continue;
+            }
+            Err(pn) => {
+                ctx.oracle_fail(&format!("vkmut-read-panic:{class}"), "VerifyingKey::from_bytes panicked on an edited key", json!({"mutation": name, "panic": pn}));
+                continue;
+            }
+        };
+        ctx.count(&format!("vkmut:{class}"));
+        vk_input_case(ctx, &class, &vk2);
+        let verdict = verify::<Blake2bState>(&m.params, &vk2, m.fp.n_committed, &p.insts, &p.coms, &p.proof);
+        if vk2.transcript_repr() == vk.transcript_repr() {
+            ctx.oracle_fail(
+                &format!("vk-component-not-in-repr:{class}"),
+                "a changed component of the verifying key leaves transcript_repr unchanged",
+                json!({"params": format!("{:?}", m.fp), "mutation": name, "verdict_on_honest_proof": format!("{verdict:?}")}),
+            );
+        }
+        match verdict {
+            Ok(false) => {}
+            other => ctx.oracle_fail(
+                &format!("accepted-mutant:vkmut-{class}"),
+                "honest proof verified (or verifier panicked) under a verifying key with one component changed",
+                json!({"params": format!("{:?}", m.fp), "mutation": name, "result": format!("{other:?}")}),
+            ),
+        }
+    }
+}
+
 fn main() {
     let mut ctx = Ctx::from_args("C03");
     let mut rng = ctx.rng("family");
@@ -352,6 +761,8 @@ fn main() {
         _ => (10, 600),
     };
     scalar_cases(&mut ctx);
+    point_cases(&mut ctx);
+    let n_parse = if ctx.quick() { 3 } else { 12 };
     let every = FamParams {
         n_adv0: 4,
         n_adv1: 1,
@@ -373,6 +784,24 @@ fn main() {
     let other_fixed = setup_member(&FamParams { steps: 5, ..every.clone() }, 31, base.k);
     for np in [1usize, 2] {
         if let Some(p) = prove::<Blake2bState>(&mut ctx, &base, np, 300 + np as u64) {
+            absorbed_case(&mut ctx, &base, &p, false);
+            parse_cases::<Blake2bState>(&mut ctx, &base, &p, n_parse, 300 + np as u64);
+            if np == 1 {
+                let all = !ctx.quick();
+                vk_mutations(
+                    &mut ctx,
+                    &base,
+                    &p,
+                    &[
+                        ("gates", &other_circuit.fp),
+                        ("lookups", &FamParams { lookups: vec![LookupKind::Range], ..every.clone() }),
+                        ("unblinded", &FamParams { unblinded: false, ..every.clone() }),
+                        ("n-plain", &FamParams { n_plain: 3, ..every.clone() }),
+                        ("n-adv", &FamParams { n_adv0: 5, ..every.clone() }),
+                    ],
+                    all,
+                );
+            }
             mutate_all::<Blake2bState, PoseidonState<F>>(&mut ctx, &base, &p, n_flips, 300 + np as u64);
             wrong_vk(&mut ctx, &base, &p, &[("other-k", &other_k), ("other-circuit", &other_circuit), ("other-fixed", &other_fixed)]);
         }
@@ -380,6 +809,8 @@ fn main() {
     // the same under the Poseidon transcript (its scalar/point readers are separate code)
     ctx.count("hash:poseidon");
     if let Some(p) = prove::<PoseidonState<F>>(&mut ctx, &base, 1, 310) {
+        absorbed_case(&mut ctx, &base, &p, true);
+        parse_cases::<PoseidonState<F>>(&mut ctx, &base, &p, n_parse, 310);
         mutate_all::<PoseidonState<F>, Blake2bState>(&mut ctx, &base, &p, n_flips, 310);
     }
     for i in 0..n_members {
@@ -388,9 +819,16 @@ fn main() {
         let np = rng.gen_range(1..=2);
         if i % 2 == 0 {
             if let Some(p) = prove::<Blake2bState>(&mut ctx, &m, np, 3000 + i as u64) {
+                absorbed_case(&mut ctx, &m, &p, false);
+                parse_cases::<Blake2bState>(&mut ctx, &m, &p, n_parse, 3000 + i as u64);
+                if i % 4 == 0 {
+                    vk_mutations(&mut ctx, &m, &p, &[], false);
+                }
                 mutate_all::<Blake2bState, PoseidonState<F>>(&mut ctx, &m, &p, n_flips, 3000 + i as u64);
             }
         } else if let Some(p) = prove::<PoseidonState<F>>(&mut ctx, &m, np, 3000 + i as u64) {
+            absorbed_case(&mut ctx, &m, &p, true);
+            parse_cases::<PoseidonState<F>>(&mut ctx, &m, &p, n_parse, 3000 + i as u64);
             mutate_all::<PoseidonState<F>, Blake2bState>(&mut ctx, &m, &p, n_flips, 3000 + i as u64);
         }
     }
